@@ -161,11 +161,13 @@ func generate(rng *simkit.RNG) []Item {
 func generate1(rng *simkit.RNG) []Item {
 	var child, input, cons []Item
 	exit := func() {
-		switch rng.Intn(4) {
-		case 0:
+		switch rng.Intn(6) {
+		case 0, 1:
 			child = append(child, Item{K: "exit", Code: pick(rng, exitCodes)})
-		case 1:
+		case 2:
 			child = append(child, Item{K: "exit"})
+		case 3:
+			child = append(child, Item{K: "kill", Sig: pick(rng, []int{9, 15})})
 		}
 	}
 	smallPair := func() (int, int) {
@@ -368,8 +370,16 @@ func generate1(rng *simkit.RNG) []Item {
 		cons = append(cons, Item{K: "rgate", G: "input_done"})
 		cons = append(cons, drainItem(rng, a+b)...)
 	}
-	// the three parties' items keep their own order; mix the lists so that
-	// the action list is one sequence
+	// input reader modes io.Reader allows: (0, nil) reads in between, the
+	// last bytes together with io.EOF
+	if len(input) > 0 {
+		for k := rng.Intn(3); k > 0 && rng.Chance(1, 2); k-- {
+			input = insertAt(rng, input, Item{K: "inz"})
+		}
+		if rng.Chance(1, 3) {
+			input = append(input, Item{K: "indataeof"})
+		}
+	}
 	var items []Item
 	items = append(items, child...)
 	items = append(items, input...)
